@@ -86,6 +86,7 @@ def gen(ch):
     sc.src = g.src(items, ("agen", "aiter_cls", "aiter_noclose", "aiter_full", "aiter_throwonly"))
     sc.src.aclose_mode = 0
     sc.src.aclose_suspends = 0
+    sc.src.lazy_open = False  # the history advances the underlying iterator directly, without an async-for
     ops = []
     for n in range(ch.between(1, 12)):
         kind = ch.weighted([5, 3, 2, 1, 2, 4, 1, 1, 1, 2, 1, 1, 1, 2, 2, 2, 4])
